@@ -79,13 +79,12 @@ def groupsAfter (b b' : Bus) (sel : Gear → Bool) (req : Nat) : Bool :=
   b.length == b'.length &&
   (b.zip b').all (fun (u, u') => if sel u then u'.groups % 65536 == req else u'.groups == u.groups)
 
-/-- SetGroups.  `groups` is the requested set (members < 16).
+/-- SetGroups.  `req` is the requested set as a 16-bit mask.
 short / int destination with exactly one unit there: ADD exactly for `requested \ current`,
 then REMOVE exactly for `current \ requested` (in any order within each block), after the two
 queries; membership afterwards = request.  No unit / several units there: DALISequenceError,
 nothing changed.  Other destinations: 16 commands, every addressed unit ends with the request. -/
-def setGroupsPost (b : Bus) (a : Addr) (groups : List Nat) (o : Out Bus Unit) : Bool :=
-  let req := maskOf groups
+def setGroupsPost (b : Bus) (a : Addr) (req : Nat) (o : Out Bus Unit) : Bool :=
   match a with
   | .short _ =>
     (match b.filter (·.addressed a) with
@@ -159,5 +158,13 @@ def queryColourPost (b : Bus) (a : Addr) (sel : Nat) (o : Out Bus (Option Nat)) 
       | none => o.res == .ret none)
    | _ => o.res == .ret none) &&
   b.length == o.st.length && (b.zip o.st).all (fun (u, u') => colourUntouched u u')
+
+/-- QueryDT8ColourValue against an arbitrary answer stream: four commands; the value is
+`LSB + 256·MSB` exactly when both bytes arrive cleanly and the MSB is not MASK, else `None`. -/
+def queryColourStreamPost (answers : Nat → Resp) (o : Out Nat (Option Nat)) : Bool :=
+  o.trace.length == 4 &&
+  (match answers 2, answers 3 with
+   | .byte m, .byte l => if m = 255 then o.res == .ret none else o.res == .ret (some (l + 256 * m))
+   | _, _ => o.res == .ret none)
 
 end DaliVerif.GearSeq
